@@ -185,8 +185,13 @@ def check_fp(case, seed):
     A, b = fp_map(name, n)
     fails, outcomes, evals = [], set(), 0
     worst = 0.0
-    for (atol, rtol), mi in itertools.product(FP_TOLS, FP_MAXIT):
+    for (atol, rtol), mi, atol_kind in itertools.product(FP_TOLS, FP_MAXIT, ("float", "array")):
         calls = []
+        atol_scalar = atol
+        if atol_kind == "array":
+            # per-component absolute tolerances, as DualStormerVerlet._step passes them
+            atol = atol_scalar * (1.0 + 0.5 * (np.arange(n) % 2))
+            atol_before = atol.copy()
 
         def fun(x):
             y = A @ x + b
@@ -194,13 +199,20 @@ def check_fp(case, seed):
             return y
 
         x0 = np.zeros(n) + 0.25
-        letters = {"helper": case["helper"], "family": name, "n": n, "atol": atol, "rtol": rtol, "max_iter": mi}
+        letters = {"helper": case["helper"], "family": name, "n": n, "atol": atol_scalar, "atol_kind": atol_kind, "rtol": rtol, "max_iter": mi}
         evals += 1
+        x0_before = x0.copy()
         try:
             with np.errstate(all="ignore"):
                 out = helper(fun, x0, atol=atol, rtol=rtol, max_iter=mi)
         except Exception as e:
             outcomes.add(f"{case['helper']}:raised")
+            out = None
+        if atol_kind == "array":
+            if not np.array_equal(atol, atol_before):
+                fails.append({"site": f"{case['helper']} modifies the tolerance array of its caller", "msg": f"{letters}: {atol_before} -> {atol}", "data": dict(letters)})
+            atol = atol_before
+        if out is None:
             continue
         x = np.asarray(out[0], float)
         outcomes.add(f"{case['helper']}:returned")
@@ -232,7 +244,11 @@ def _afp_functions():
                  lambda x: np.array([[np.cos(x[0]) * np.cos(x[1]), -np.sin(x[0]) * np.sin(x[1]), 0.0], [0, 0, 0.5 * np.exp(0.5 * x[2])], [x[2], 0, x[0]]]),
                  np.array([0.4, 1.1, -0.6])),
         "scalar_arg": (lambda x: np.array([x[0] ** 2, np.sin(x[0])]), lambda x: np.array([2 * x[0], np.cos(x[0])]), np.array([0.9])),
+        # functions whose result shares memory with their argument (cardillo's own PointMass.q_dot returns u)
+        "identity_alias": (lambda x: x, lambda x: np.eye(3), np.array([0.3, -0.8, 1.2])),
+        "view_alias": (lambda x: x[1:], lambda x: np.eye(3)[1:], np.array([0.3, -0.8, 1.2])),
         "matrix_valued": (lambda x: np.outer(x, x), None, np.array([0.3, -0.8, 1.2])),
+        "transpose_alias": (lambda X: X.T, None, np.array([[0.5, -0.2], [0.1, 0.9]])),
         "matrix_arg": (lambda X: X @ X, None, np.array([[0.5, -0.2], [0.1, 0.9]])),
     }
 
@@ -252,6 +268,10 @@ def check_afp(case, seed):
             for j in range(n):
                 for k in range(n):
                     ref[i, j, k] = (i == k) * x0[j] + (j == k) * x0[i]
+    elif fname == "transpose_alias":
+        ref = np.zeros((2, 2, 2, 2))
+        for i, j, k, l in itertools.product(range(2), repeat=4):
+            ref[i, j, k, l] = float(i == l and j == k)
     elif fname == "matrix_arg":
         X = x0
         ref = np.zeros((2, 2, 2, 2))
